@@ -150,6 +150,31 @@ def velocity_samples(prog: Program, reversal: Optional[bool] = None, frac: Any =
     return res, samples, it, dom
 
 
+def effective_fields(res, samples, it) -> list:
+    """Per component of velocity()'s result: the field effectively sampled.
+
+    The interpolation kernels are linear in the field values (weights times F, R02.2), so
+    c * sample(F) is sample(c * F): a constant factor applied to the sampled particle values counts
+    as applied to the field.  -> [NF | None] (None: component is not c * one sample)."""
+    by_atom = {s.result_atom: s for s in samples}
+    items = res.items if isinstance(res, Tup) else [res]
+    out = []
+    for v in items:
+        v = it.num(v)
+        eff = None
+        if isinstance(v, NF):
+            ats = [a for a in v.atoms() if a in by_atom]
+            if len(ats) == 1 and v.atoms() == {ats[0]}:
+                c = v.coeff(ats[0])
+                f = by_atom[ats[0]].field_nf
+                if isinstance(f, Ref):
+                    f = NF.atom(f.path)
+                if isinstance(c, NF) and not c.atoms() and isinstance(f, NF) and v == c * NF.atom(ats[0]):
+                    eff = c * f
+        out.append(eff)
+    return out
+
+
 def force_particles_run(prog: Program, reversal: Optional[bool] = None):
     fi = prog.role_func("forcing", "force_particles")
     samples: list[Sample] = []
